@@ -414,6 +414,11 @@ fn main() {
                 w.produced_windows.insert(win);
                 for s in first..(win + 1) * W {
                     let copies = if w.byz[leader] && rng.chance(1, 2) { 2 } else { 1 };
+                    // a Byzantine leader may also build a later slot of its window on any older block (chain that jumps slots)
+                    if w.byz[leader] && s > first && rng.chance(1, 3) {
+                        let c: Vec<(u64, usize)> = w.blocks.iter().filter(|(_, b)| b.0 < s).map(|(h, b)| (b.0, *h)).collect();
+                        if !c.is_empty() { let (a, b) = *rng.pick(&c); ps = a; ph = b; }
+                    }
                     let mut firsth = 0;
                     for c in 0..copies {
                         let h = w.new_block(s, ps, ph);
